@@ -23,6 +23,7 @@ GROUPS += [
     dict(name='pop_any_size', tu='deque.c', harness='h_pop', mode='H', defs=GD, functions=['wsd_work_stealing_deque_pop_bottom']),
     dict(name='steal_any_size', tu='deque.c', harness='h_steal', mode='H', defs=GD, functions=['wsd_work_stealing_deque_steal']),
 ]
+GROUPS += [dict(name='lemmas', tu='lemmas.c', kind='lemmas', harness='', no_native='pure lemma')]
 def static_facts(repo, scratch):
     src = open(os.path.join(repo, 'src/work_stealing_deque.c')).read()
     m = re.search(r'void\* wsd_work_stealing_deque_pop_bottom\(.*?\n\}', src, re.S)
